@@ -161,18 +161,17 @@ Crossbeam<'a, ItemType, BUFFER_SIZE, MAX_STREAMS> {
                 break
             }
             let sender = unsafe { self.senders.get_unchecked(*stream_id as usize) };
-            match sender.len() {
-                len_before if len_before <= 2 => {
-                    let _ = sender.try_send(arc_item.clone());
-                    self.streams_manager.wake_stream(*stream_id);
-                },
-                _ => while sender.try_send(arc_item.clone()).is_err() {
-                    self.streams_manager.wake_stream(*stream_id);
+            let len_before = sender.len();
+            // a refused enqueue is never given up, whatever `len_before` said: the buffer may be that small (BUFFER_SIZE <= 2) or other producers filled it meanwhile
+            while sender.try_send(arc_item.clone()).is_err() {
+                self.streams_manager.wake_stream(*stream_id);
 // TODO 2023-08-02: the possibility of this code indicates all our arc based channels is not a good fit for our retrying semantics. A possible correction would be to use a lock + count all listener's free slots... but OgreArc based ones seem to be a better design
 warn!("Multi Channel's Arc Crossbeam (named '{channel_name}', {used_streams_count} streams): One of the streams (#{stream_id}) is full of elements. Multi producing performance has been degraded. Increase the Multi buffer size (currently {BUFFER_SIZE}) to overcome that.",
       channel_name = self.streams_manager.name(), used_streams_count = self.streams_manager.running_streams_count());
 std::thread::sleep(Duration::from_millis(500));
-                },
+            }
+            if len_before <= 2 {
+                self.streams_manager.wake_stream(*stream_id);
             }
         }
         true
